@@ -199,3 +199,176 @@ Definition lost_update_witness (c0 c1 : call) (w0 : Z) : witness_result :=
   let s10 := run_sched (init w0 [c0; c1]) serial10 in
   Witness (fst cf) (all_done cf) (fst s01) (fst s10)
           (all_done cf && all_done s01 && all_done s10 && negb (fst cf =? fst s01) && negb (fst cf =? fst s10)).
+
+(* ---- compound methods ---------------------------------------------------------- *)
+(* Tag, ChannelCanStop, ChannelCanStart and SetChannel make SEVERAL sync/atomic calls: loads (the
+   getters they call, with their early exits) and the Set/Unset calls.  tools/atomics2v translates
+   each of them into a decision tree over its atomic calls, in source order, getters and `e`
+   inlined:
+     PRet b            the method returns b
+     PTest m a b       ONE atomic load of the word, `load & m != 0` ? continue with a : with b
+     PCall set arg k   a call of Set (set = true) or Unset (set = false) with the constant arg,
+                       executed as the atomic calls of THAT method (its translated shape), then k
+     PUnknown          something the translator does not recognise (never finishes: nothing is
+                       claimed about it) *)
+Inductive prog : Type :=
+| PRet (b : bool)
+| PTest (m : Z) (ifset ifclear : prog)
+| PCall (set : bool) (arg : Z) (k : prog)
+| PUnknown.
+
+(* a thread executing a program: what is left of it, the position inside the atomic calls of the
+   Set/Unset call it is in, and the register of that call *)
+Record pthread : Type := PThread { pt_prog : prog; pt_k : nat; pt_reg : Z }.
+Definition pstart (p : prog) : pthread := PThread p 0 0.
+Definition pret (t : pthread) : option bool := match pt_prog t with PRet b => Some b | _ => None end.
+Definition pfinished (t : pthread) : bool := match pt_prog t with PRet _ => true | _ => false end.
+
+(* two threads and the word *)
+Definition pconfig : Type := (Z * pthread * pthread)%type.
+Definition pc_word (c : pconfig) : Z := fst (fst c).
+Definition pc_a (c : pconfig) : pthread := snd (fst c).
+Definition pc_b (c : pconfig) : pthread := snd c.
+
+Section Machine.
+  (* the translated shapes of Set and Unset *)
+  Variables mset munset : mutator.
+
+  Definition call_ops (set : bool) : list aop :=
+    let m := if set then mset else munset in
+    match m_shape m with Unknown => [] | _ => m_ops m end.
+
+  (* one scheduling slot of a thread = exactly one sync/atomic call *)
+  Definition pstep (w : Z) (t : pthread) : Z * pthread :=
+    match pt_prog t with
+    | PRet _ => (w, t)
+    | PUnknown => (w, t)
+    | PTest m a b => (w, pstart (if ld_and w m then a else b))
+    | PCall set arg k =>
+        match nth_error (call_ops set) (pt_k t) with
+        | None => (w, t)
+        | Some o =>
+            let '(w', r', c) := step_of arg o w (pt_reg t) in
+            let k' := match c with Next => S (pt_k t) | Goto j => j end in
+            if (length (call_ops set) <=? k')%nat then (w', pstart k)
+            else (w', PThread (PCall set arg k) k' r')
+        end
+    end.
+
+  (* thread id 0 = the first thread, 1 = the second, any other id stutters *)
+  Definition pstep2 (c : pconfig) (i : nat) : pconfig :=
+    let '(w, a, b) := c in
+    match i with
+    | O => let '(w', a') := pstep w a in (w', a', b)
+    | S O => let '(w', b') := pstep w b in (w', a, b')
+    | _ => c
+    end.
+
+  Definition prun (c : pconfig) (sched : list nat) : pconfig := fold_left pstep2 sched c.
+  Definition pinit (w0 : Z) (pa pb : prog) : pconfig := (w0, pstart pa, pstart pb).
+
+  (* one program alone, to completion *)
+  Fixpoint run_alone (fuel : nat) (w : Z) (t : pthread) : option bool * Z :=
+    match fuel with
+    | O => (pret t, w)
+    | S n => if pfinished t then (pret t, w) else let '(w', t') := pstep w t in run_alone n w' t'
+    end.
+  Definition run_prog (p : prog) (w : Z) : option bool * Z := run_alone 64 w (pstart p).
+
+  (* EVERY interleaving: P holds in every configuration reachable by any schedule, and within
+     `fuel` slots per path both threads have returned *)
+  Fixpoint explore (P : pconfig -> bool) (fuel : nat) (c : pconfig) : bool :=
+    P c &&
+    match fuel with
+    | O => pfinished (pc_a c) && pfinished (pc_b c)
+    | S n => (pfinished (pc_a c) || explore P n (pstep2 c 0%nat)) &&
+             (pfinished (pc_b c) || explore P n (pstep2 c 1%nat))
+    end.
+
+  (* a schedule leading to a configuration where P fails (the check prints it) *)
+  Fixpoint find_bad (P : pconfig -> bool) (fuel : nat) (c : pconfig) : option (list nat) :=
+    if negb (P c) then Some [] else
+    match fuel with
+    | O => None
+    | S n =>
+        match (if pfinished (pc_a c) then None else find_bad P n (pstep2 c 0%nat)) with
+        | Some s => Some (0%nat :: s)
+        | None =>
+            match (if pfinished (pc_b c) then None else find_bad P n (pstep2 c 1%nat)) with
+            | Some s => Some (1%nat :: s)
+            | None => None
+            end
+        end
+    end.
+
+  (* ---- the channel request protocol under concurrency -------------------------- *)
+  (* a channel is running: the poller is past its first exit *)
+  Definition chan_active (w : Z) : bool := negb (st_closing w) && st_channel w.
+
+  (* Thread a = one SetChannel(e) call, thread b = one ChannelCanStop call (`poller`), initial word
+     w0 with a running channel.  In every reachable configuration:
+     1. SetChannel answers whether the request differs from the standing one (as alone);
+     2. the poller answers "stop" only because of an OFF request: this one, or an earlier one whose
+        notice was still pending in w0 -- it never acts on a notice with the value of another request;
+     3. once both have returned and the request differed: the standing request is e, and
+        - if the notice is gone, the poller consumed it and its answer is the one for e;
+        - if the notice is pending, the next poll consumes it (exactly that) and answers for e;
+        so the request is never lost, and after that poll a further one sees no notice. *)
+  Definition protocol_ok (poller : prog) (e : bool) (w0 : Z) (c : pconfig) : bool :=
+    let '(w, ts, tp) := c in
+    negb (chan_active w0) ||
+    ((match pret ts with Some rs => eqb rs (request_differs e w0) | None => true end) &&
+     (match pret tp with
+      | Some true => negb e || (st_channel_updated w0 && negb (st_channel_value w0))
+      | _ => true
+      end) &&
+     (match pret ts, pret tp with
+      | Some true, Some rp =>
+          eqb (st_channel_value w) e &&
+          (if st_channel_updated w
+           then let '(r2, w2) := run_prog poller w in
+                (match r2 with Some b => eqb b (negb e) | None => false end) &&
+                negb (st_channel_updated w2) && eqb (st_channel_value w2) e
+           else eqb rp (negb e))
+      | _, _ => true
+      end)).
+
+  (* Thread b = one ChannelCanStart call: it never writes, and its answer is the answer for the
+     word before the request or for the word after it *)
+  Definition canstart_ok (e : bool) (w0 : Z) (c : pconfig) : bool :=
+    let '(w, ts, tp) := c in
+    let after := negb (st_closed w0) &&
+                 (st_channel w0 || (if request_differs e w0 then e else st_channel_value w0)) in
+    (match pret tp with
+     | Some r => eqb r (st_channel_can_start w0) || eqb r after
+     | None => true
+     end) &&
+    (match pret ts, pret tp with
+     | Some rs, Some _ =>
+         eqb rs (request_differs e w0) &&
+         eqb (st_channel_value w) (if rs then e else st_channel_value w0) &&
+         eqb (st_channel_updated w) (rs || st_channel_updated w0)
+     | _, _ => true
+     end).
+End Machine.
+
+(* the masks a program tests or writes *)
+Fixpoint prog_mask (p : prog) : Z :=
+  match p with
+  | PRet _ => 0
+  | PUnknown => 0
+  | PTest m a b => Z.lor m (Z.lor (prog_mask a) (prog_mask b))
+  | PCall _ arg k => Z.lor arg (prog_mask k)
+  end.
+Fixpoint prog_known (p : prog) : bool :=
+  match p with
+  | PRet _ => true
+  | PUnknown => false
+  | PTest m a b => (0 <=? m) && prog_known a && prog_known b
+  | PCall _ arg k => (0 <=? arg) && prog_known k
+  end.
+(* the words below 2^16 made of bits of M only *)
+Definition submasks (M : Z) : list Z := filter (fun x => Z.land x M =? x) flag_states.
+
+(* slots per path: more than any interleaving of two compound calls needs *)
+Definition protocol_fuel : nat := 40.
